@@ -30,7 +30,7 @@ CLAIMS = {
          "theorem of arXiv:2408.00081 and is NOT proved.",
          "Lean-verified closure checker evaluated per input + exact differential correspondence of the classifier model"),
  "C02": ("other", "6.C02", "Partial: closure of canonical vertices == closure of generators and dependents inside it, decided per input with the Lean-verified closureList "
-         "(n<=6); star-of-paths shape (Lean checker on the legs' anticommutation graph), accounting (vertices + dependents == distinct inputs) and one graph per "
+         "(n<=6); star-of-paths shape (Lean checker, PROVED equivalent to the declarative notion IsCanonicalStar: C02_shape_checker), accounting (vertices + dependents == distinct inputs) and one graph per "
          "component at any n (to 16/24 qubits). Closure preservation of the reduction for all inputs is not proved.",
          "Lean-verified closure/shape checkers per input + differential correspondence of the reduction model"),
  "C08": ("other", "6.C08", "Partial: get_space / select_dependents / is_in / is_eq compared per input with the Lean-verified commutator closure (all 4^n single queries for "
